@@ -5,9 +5,13 @@ From SAV.orm Require Import Lifecycle LifecycleSpec LifecycleLemmas LifecycleInv
 Open Scope Z_scope.
 
 Definition rokb (o : obj) : bool :=
-  implb (itnew o || inew o) (osess o && negb (odel o)) && implb (itdel o || isdel o) (okey o && osess o && odel o).
-Definition postb (o : obj) : bool := objinvb (Some true) o && negb (isdel o).
-Definition extrab (o : obj) : bool := implb (itdel o || isdel o) (okey o && osess o && odel o).
+  implb (itnew o || inew o) (osess o && negb (odel o) && negb (itdel o)) && implb (itdel o || isdel o) (okey o && osess o).
+(* the invariant of a deactive transaction without "session._deleted is in the identity map": while the
+   deletions are reverted one by one, identity_map.replace() may evict a state that is still marked *)
+Definition postb (o : obj) : bool :=
+  implb (inew o) (negb (okey o) && osess o) && implb (iimap o) (okey o && osess o && negb (odel o)) &&
+  implb (negb (okey o)) (negb (odel o)).
+Definition extrab (o : obj) : bool := implb (itdel o || isdel o) (okey o && osess o).
 
 Lemma restore_ok_SP : forall st, restore_ok st = true -> SP (fun _ => rokb) st.
 Proof. intros st H k o Hk. unfold restore_ok in H. rewrite forallb_forall in H.
@@ -21,13 +25,17 @@ Lemma restore_pass1_ok : forall o, objinvb (Some true) o && rokb o = true ->
   wfob (snd (restore_expunge_obj true o)) = true.
 Proof. obj_cases. Qed.
 
+Lemma post_done : forall o, postb o && negb (isdel o) = true -> objinvb (Some true) o = true.
+Proof. obj_cases. Qed.
+
 Lemma autobegin_some : forall st b, tx st = Some b -> autobegin st = st.
 Proof. intros. unfold autobegin. rewrite H. reflexivity. Qed.
 
+(* [b]: this is the state being reverted; [m]: it is still to be visited *)
 Lemma revert_step_ok : forall (b m : bool) kz o,
-  postb o && (if b || m then extrab o else true) && (if b then itdel o || isdel o else true) = true ->
+  postb o && (if b || m then extrab o else negb (isdel o)) && (if b then itdel o || isdel o else true) = true ->
   let f := if b then revert_obj o else if iimap o && Z.eqb (pk o) kz then (set_iimap false o, []) else (o, []) in
-  postb (fst f) && (if negb b && m then extrab (fst f) else true) = true /\ wfob (snd f) = true.
+  postb (fst f) && (if negb b && m then extrab (fst f) else negb (isdel (fst f))) = true /\ wfob (snd f) = true.
 Proof. intros b m kz o. destruct b, m; destruct (Z.eqb (pk o) kz); obj_cases. Qed.
 
 Lemma get_out_of_range : forall st i, (length (objs st) <= i)%nat -> get st i = dflt.
@@ -38,12 +46,12 @@ Definition revF (i : nat) (st : state) : state * Z :=
 
 Lemma revert_fold : forall l st,
   tx st = Some true -> NoDup l ->
-  SP (fun k o => postb o && (if memn k l then extrab o else true)) st -> wf (slog st) ->
-  SP (fun _ => postb) (fst (fold_err revF l st)) /\ wf (slog (fst (fold_err revF l st))) /\
+  SP (fun k o => postb o && (if memn k l then extrab o else negb (isdel o))) st -> wf (slog st) ->
+  SP (fun _ o => postb o && negb (isdel o)) (fst (fold_err revF l st)) /\ wf (slog (fst (fold_err revF l st))) /\
   tx (fst (fold_err revF l st)) = Some true.
 Proof.
   induction l as [|i r IH]; intros st Htx Hnd HP Hw; simpl.
-  - split; [|auto]. eapply SP_weaken; [exact HP|]. intros k o H. simpl in H. rewrite andb_true_r in H. exact H.
+  - split; auto.
   - inversion Hnd as [|? ? Hni Hnd']; subst.
     assert (Hnotin : forall k, memn k r = true -> Nat.eqb k i = false).
     { intros k Hk. destruct (Nat.eqb_spec k i); auto. subst. exfalso. apply Hni.
@@ -54,31 +62,37 @@ Proof.
       { destruct (Nat.ltb_spec i (length (objs st))) as [|H]; [assumption|]. exfalso.
         rewrite (get_out_of_range st i H) in Efl. discriminate. }
       pose proof (SP_elim _ st i HP Hi) as Hpi. simpl in Hpi. rewrite Nat.eqb_refl in Hpi. simpl in Hpi.
-      assert (Hk : okey (get st i) = true /\ osess (get st i) = true /\ odel (get st i) = true).
+      assert (Hk : okey (get st i) = true /\ osess (get st i) = true).
       { revert Hpi Efl. unfold postb, extrab. generalize (get st i). obj_cases. }
-      destruct Hk as [K1 [K2 K3]].
+      destruct Hk as [K1 K2].
       set (f := replacing i (pk (get st i)) revert_obj).
       assert (Hrev : revF i st = (app_all f st, 0)).
-      { unfold revF. rewrite Efl. unfold revert_impl. rewrite K1, K2, K3. simpl.
+      { unfold revF. rewrite Efl. unfold revert_impl. rewrite K1, K2. simpl. rewrite andb_false_r.
         rewrite (autobegin_some st true Htx). reflexivity. }
       rewrite Hrev. replace (Z.eqb 0 0) with true by reflexivity.
-      assert (HP2 : SP (fun k o => postb o && (if Nat.eqb k i || memn k r then extrab o else true) &&
+      assert (HP2 : SP (fun k o => postb o && (if Nat.eqb k i || memn k r then extrab o else negb (isdel o)) &&
                                    (if Nat.eqb k i then itdel o || isdel o else true)) st).
-      { apply (SP_get (fun k o => postb o && (if Nat.eqb k i || memn k r then extrab o else true))
+      { apply (SP_get (fun k o => postb o && (if Nat.eqb k i || memn k r then extrab o else negb (isdel o)))
                       (fun o => itdel o || isdel o)); auto. }
-      destruct (pass_spec _ (fun k o => postb o && (if negb (Nat.eqb k i) && memn k r then extrab o else true)) f st HP2) as [A B].
+      destruct (pass_spec _ (fun k o => postb o && (if negb (Nat.eqb k i) && memn k r then extrab o else negb (isdel o))) f st HP2) as [A B].
       { intros k o Hp. unfold f, replacing. apply (revert_step_ok (Nat.eqb k i) (memn k r)). exact Hp. }
       apply IH; auto.
       * rewrite app_all_tx. auto.
       * eapply SP_weaken; [exact A|]. intros k o H. simpl in H.
         destruct (memn k r) eqn:Em; [rewrite (Hnotin k Em) in H; exact H|].
         rewrite andb_false_r in H. exact H.
-    + (* not flagged *)
+    + (* not flagged: nothing to revert, and it is not marked *)
       assert (Hrev : revF i st = (st, 0)) by (unfold revF; rewrite Efl; reflexivity).
       rewrite Hrev. replace (Z.eqb 0 0) with true by reflexivity.
-      apply IH; auto. eapply SP_weaken; [exact HP|]. intros k o H. simpl in H.
-      destruct (memn k r) eqn:Em; [rewrite orb_true_r in H; exact H|].
-      destruct (Nat.eqb k i); simpl in H; [apply andb_prop in H as [H _]; rewrite H; reflexivity|exact H].
+      apply IH; auto.
+      assert (HP2 : SP (fun k o => postb o && (if Nat.eqb k i || memn k r then extrab o else negb (isdel o)) &&
+                                   (if Nat.eqb k i then negb (itdel o || isdel o) else true)) st).
+      { apply (SP_get (fun k o => postb o && (if Nat.eqb k i || memn k r then extrab o else negb (isdel o)))
+                      (fun o => negb (itdel o || isdel o))); auto. rewrite Efl. reflexivity. }
+      eapply SP_weaken; [exact HP2|]. intros k o H. simpl in H.
+      destruct (memn k r) eqn:Em; [rewrite orb_true_r in H; apply andb_prop in H as [H _]; exact H|].
+      rewrite orb_false_r in H. destruct (Nat.eqb k i); [|apply andb_prop in H as [H _]; exact H].
+      revert H. obj_cases.
 Qed.
 
 Lemma memn_seq : forall n k, memn k (seq 0 n) = Nat.ltb k n.
@@ -107,7 +121,9 @@ Proof.
   assert (Htx1 : tx st1 = Some true) by (unfold st1; rewrite app_all_tx; auto).
   destruct (revert_fold (all_idx st1) st1 Htx1) as [C [D E]]; auto.
   - apply seq_NoDup.
-  - eapply SP_weaken; [exact A|]. intros k o H. simpl in H. apply andb_prop in H as [H1 H2].
-    rewrite H1, H2. destruct (memn k (all_idx st1)); reflexivity.
-  - split; [|auto]. eapply SP_weaken; [exact C|]. intros k o H. simpl in H. apply andb_prop in H as [H _]. exact H.
+  - intros k o Hk. pose proof (A k o Hk) as H. simpl in H.
+    assert (Hm : memn k (all_idx st1) = true).
+    { unfold all_idx. rewrite memn_seq. apply Nat.ltb_lt. apply nth_error_Some. congruence. }
+    rewrite Hm. exact H.
+  - split; [|auto]. eapply SP_weaken; [exact C|]. intros k o H. apply post_done; auto.
 Qed.
